@@ -87,6 +87,9 @@ func init() {
 		withShare("C01", 0.7)
 		withShare("C02", 0.8)
 		withShare("C04", 0.75)
+		withShare("C08", 0.4)
+		withShare("C08child", 0.23)
+		withShare("C08deep", 0.05)
 		withShare("C10", 0.8)
 		withShare("C11", 0.75)
 		withShare("C15", 0.75)
@@ -108,9 +111,21 @@ func init() {
 
 	g1Specs["C08rounds"] = func(tier string) *G1Spec {
 		alpha := []*BatchSpec{{Ops: ops("S:a")}, {Ops: ops("M:a")}, {Ops: ops("D:a")}, {Ops: ops("M:a", "M:b")}}
-		return asRounds(g1Specs["C08"](tier), tier, alpha, true, 0.2)
+		return asRounds(g1Specs["C08"](tier), tier, alpha, true, 0.18)
 	}
-	g1Groups["C08"] = []string{"C08", "C08child", "C08deep", "C08rounds"}
+	// operands inside a child collection across leveled compactions: compact() merges the segments of a child
+	// collection above the splice point without the ones below it (MB-29664), so this is where an operand could be
+	// folded over nothing; every batch also writes at the top level (a round without top-level data is compacted fully)
+	g1Specs["C08childrounds"] = func(tier string) *G1Spec {
+		ka := func(top string, child ...string) *BatchSpec {
+			return &BatchSpec{Ops: ops(top), Kids: kid("A", &BatchSpec{Ops: ops(child...)})}
+		}
+		alpha := []*BatchSpec{ka("S:t", "S:a"), ka("S:t", "M:a"), ka("S:u", "D:a"), ka("M:t", "M:a", "S:b")}
+		sp := asRounds(g1Specs["C08"](tier), tier, alpha, true, 0.12)
+		sp.Note += "; child variant of the rounds search: Set / Merge / Del of a key inside child collection A next to top-level writes"
+		return sp
+	}
+	g1Groups["C08"] = []string{"C08", "C08child", "C08deep", "C08rounds", "C08childrounds"}
 
 	g1Specs["C10rounds"] = func(tier string) *G1Spec {
 		alpha := []*BatchSpec{{Ops: ops("S:a")}, {Ops: ops("M:a")}, {Ops: ops("D:a")}, {Ops: ops("E:a", "M:")}, unevenKeys}
